@@ -5,9 +5,9 @@
    generated call history on the real engine. *)
 From Coq Require Import List Arith ZArith Bool.
 Import ListNotations.
-From Acts.Gen Require Import GenState.
+From Acts.Gen Require Import GenState GenUpdate.
 From Acts.Model Require Import Engine Multi.
-From Acts.Proofs Require Import MultiProofs C02Core C02Ops FinalProofs.
+From Acts.Proofs Require Import MultiProofs C02Core C02Ops FinalProofs UpdateTable.
 
 Theorem C15_accepted_observation :
   forall o, call_check o = [] -> co_missing o = false ->
@@ -66,6 +66,20 @@ Example C15_example :
                    co_parent_end := None; co_inputs_ok := true; co_outs_ok := true; co_unsatisfied := false; co_quiescent := true |} = [1501].
 Proof. vm_compute. auto. Qed.
 
+(* the return mapping, statically tied to the source: gen/GenUpdate.v is regenerated from Runtime::return_to_act
+   (acts/src/scheduler/runtime.rs) on every run -- the arms of `match state` and its default.  The action the model
+   sends to the calling act for a child that ended in state s is the action the source's table names, for every
+   state; and the state the calling act is closed with (`return_state`, what the checker expects) is the one that
+   action writes (`closing`), the error return apart (it raises the error with the child's code). *)
+Theorem C15_return_mapping_matches_source :
+  forall s code, ev_name (return_action s code) = return_event s /\
+    return_end s = return_state s /\
+    (s <> SError -> closing (return_action s code) = Some (return_state s)).
+Proof.
+  intros s code. split; [exact (return_map_match s code)|]. split; [destruct s; reflexivity|].
+  intros H. rewrite (return_action_closing s code H). destruct s; reflexivity.
+Qed.
+
 Print Assumptions C15_accepted_observation.
 Print Assumptions C15_forced_close_stays_single.
 Print Assumptions C15_return_closes_the_act_for_good.
@@ -74,3 +88,4 @@ Print Assumptions C15_missing_model_fails_the_act.
 Print Assumptions C15_return_mapping.
 Print Assumptions C15_expected_end.
 Print Assumptions C15_caught_child_error_completes_the_act.
+Print Assumptions C15_return_mapping_matches_source.
